@@ -86,11 +86,6 @@ def high_offset_msg(rng, target_off):
 def C01(tier, rng):
     cs = []
     cs += exhaustive_short(2)
-    if tier == 'thorough':
-        # all three-octet strings for the two entry points where a third octet matters most
-        for t in itertools.product(range(256), repeat=3):
-            h = bytes(t).hex()
-            cs.append(Case('dec.name ' + h, 'exh3')); cs.append(Case('dec.flags ' + h, 'exh3'))
     for b in corpus_vectors():
         cs += dec_all_entries(b, 'corpus')
     trips = layouts(rng, sz(tier, 1500, 20000))
@@ -109,7 +104,21 @@ def C01(tier, rng):
         cs.append(Case('dec.name %s' % hx(b'\x01a' * (n // 2) + b'\0' * (n % 2)), 'big'))
     for b in pointer_graphs(sz(tier, 3, 4)):
         cs.append(Case('dec.name %s' % hx(b), 'graph'))
-    return cs
+    if tier != 'thorough':
+        return cs
+    return c01_thorough_chunks(cs)
+
+def c01_thorough_chunks(first):
+    """thorough tier: after the base stream, ALL three-octet strings for all nine entry points, in chunks"""
+    yield first
+    for a in range(256):
+        chunk = []
+        for b in range(256):
+            for c in range(256):
+                h = '%02x%02x%02x' % (a, b, c)
+                for e in ENTRIES:
+                    chunk.append(Case('dec.%s %s' % (e, h), 'exh3'))
+        yield chunk
 
 def opt_rr(options_wire, ttl=0, cls=512, owner=b'\x00'):
     rd = b''.join(options_wire)
